@@ -102,5 +102,255 @@ def r1(ctx):
     return T
 
 
+
+
+# ---------------------------------------------------------------------------------------------- R2
+VISIBLE_END = {"Bits": "len", "BitBuffer": "write_position"}
+BITREAD_METHODS = ("read_bit", "read_bits", "read_bits_with_offset", "read_bits_with_len", "read_bits_with_offset_len")
+
+
+def mentions_field(ex, field):
+    for e in X.walk(ex):
+        if e[0] == "field" and e[2] == field:
+            return True
+    return False
+
+
+def r2(ctx):
+    from .. import facts as F
+    rule = "C04.R2"
+    ctx.rule(rule, "T8-c visible length: each BitRead method of the length-scoped readers Bits and BitBuffer tests the visible "
+                   "end (len / write_position) - directly or in a fallible helper whose error is propagated - on every path "
+                   "before it delegates to the raw slice implementation")
+    P = ctx.program()
+    n = 0
+    for ty, field in VISIBLE_END.items():
+        for m in BITREAD_METHODS:
+            cands = [b for b in P.lib_bodies("asn1rs") if b.name == m and (b.impl_trait or "").endswith("BitRead")
+                     and (b.impl_self_ty or "").split("<")[0].split("::")[-1] == ty and b.def_kind == "AssocFn"
+                     and "::promoted[" not in b.path]
+            if len(cands) != 1:
+                ctx.fail(rule, "anchor-lost:%s::%s" % (ty, m), "impl BitRead for %s has no method %s" % (ty, m))
+                continue
+            b = cands[0]
+            n += 1
+            O = X.Origins(b, P)
+            raw_calls = [cs for cs in b.calls() if cs.fn and (cs.trait or "").endswith("BitRead")
+                         and "(&[u8], &mut usize)" in (cs.fn.get("resolved") or cs.fn.get("self_ty") or "")]
+            if not raw_calls:
+                # no delegation: the method must then not touch the slice at all (nothing to guard)
+                ctx.ok(rule, "%s::%s" % (ty, m), {"function": b.path, "delegates": []})
+                continue
+            guards = []
+            for c in F.comparisons(b, O):
+                if (c.lex is not None and mentions_field(c.lex, field)) or (c.rex is not None and mentions_field(c.rex, field)):
+                    if c.switch_bb is not None:
+                        guards.append(("cmp", c.switch_bb, c.raw))
+            for cs in b.calls():
+                t = P.resolve_callee(b.crate, cs)
+                if t is None or cs.target is None:
+                    continue
+                Ot = X.Origins(t, P)
+                val = [c for c in F.comparisons(t, Ot) if c.validating and (
+                    (c.lex is not None and mentions_field(c.lex, field)) or (c.rex is not None and mentions_field(c.rex, field)))]
+                if not val:
+                    continue
+                # error must be propagated: the result feeds Try::branch
+                propagated = any(c2.name == "branch" and c2.args and c2.args[0]["k"] in ("copy", "move")
+                                 and c2.args[0]["pl"]["l"] == cs.dest["l"] for c2 in b.calls())
+                if propagated:
+                    guards.append(("callee", cs.target, "%s: %s" % (X.short(t.path), val[0].raw)))
+            bad = []
+            for rc in raw_calls:
+                if not any(g[1] != rc.bb and b.dominates(g[1], rc.bb) for g in guards):
+                    bad.append(rc)
+            detail = {"function": b.path, "visible_end_field": field, "guards": [g[2] for g in guards],
+                      "delegations": [X.short(rc.callee) + " at " + rc.loc() for rc in raw_calls]}
+            if bad:
+                ctx.fail(rule, "%s::%s" % (ty, m),
+                         "%s::%s hands the read to the raw slice implementation without testing `%s` first: bits beyond "
+                         "the declared length can be consumed and reported as success" % (ty, m, field), bad[0].loc(), detail)
+            else:
+                ctx.ok(rule, "%s::%s" % (ty, m), detail)
+    ctx.floor(rule, n, "C04.R2.methods")
+
+
+# ---------------------------------------------------------------------------------------------- R3
+def r3(ctx):
+    rule = "C04.R3"
+    ctx.rule(rule, "no-op narrowing: UperReader::read_whole_sub_slice must narrow the visible length with ScopedBitRead::set_len "
+                   "(argument derived from the sub-slice length) before it calls the content closure")
+    P = ctx.program()
+    try:
+        b = P.one("asn1rs", "UperReader::<B>::read_whole_sub_slice")
+    except KeyError as e:
+        ctx.fail(rule, "anchor-lost:read_whole_sub_slice", str(e))
+        return
+    O = X.Origins(b, P)
+    fcalls = [cs for cs in b.calls() if cs.fn and (cs.trait or "").split("::")[-1] in ("FnOnce", "FnMut", "Fn")]
+    setlens = [cs for cs in b.calls() if cs.name == "set_len" and (cs.trait or "").endswith("ScopedBitRead")]
+    ctx.anchor(rule, "closure call in read_whole_sub_slice", fcalls)
+    ok = False
+    detail = {"function": b.path, "closure_calls": [c.loc() for c in fcalls], "set_len_calls": []}
+    for sl in setlens:
+        args = O.call_args(sl)
+        dep = any(e[0] == "param" and e[2] == "length_bytes" for a in args for e in X.walk(a))
+        detail["set_len_calls"].append({"at": sl.loc(), "argument": X.render(args[1])[:120] if len(args) > 1 else "", "uses_length": dep})
+        if dep and fcalls and all(sl.target is not None and b.dominates(sl.target, fc.bb) for fc in fcalls):
+            ok = True
+    if ok:
+        ctx.ok(rule, "read_whole_sub_slice", detail)
+    else:
+        loc = fcalls[0].loc() if fcalls else "%s:%d" % (b.file, b.line)
+        ctx.fail(rule, "read_whole_sub_slice#set_len-before-content",
+                 "the visible length is never narrowed to the open type before its content is decoded "
+                 "(`mem::replace(&mut self.bits.len(), ..)` acts on a temporary): a decoder can read past the open type", loc, detail)
+
+
+# ---------------------------------------------------------------------------------------------- R4
+def r4(ctx):
+    rule = "C04.R4"
+    ctx.rule(rule, "accessor receivers: the remaining-bit accessors borrow the reader (&self) and the read methods take &mut self, "
+                   "so a failed read never consumes the reader")
+    P = ctx.program()
+    n = 0
+    for tpath, t in P.traits.items():
+        ts = tpath.split("::")[-1]
+        if ts == "ScopedBitRead" and tpath.startswith("asn1rs::"):
+            for it in t["items"]:
+                if it["name"] in ("pos", "len", "remaining", "is_empty"):
+                    n += 1
+                    recv = it.get("inputs", ["?"])[0]
+                    if recv.startswith("&") and not recv.startswith("&mut"):
+                        ctx.ok(rule, "ScopedBitRead::" + it["name"], {"receiver": recv})
+                    else:
+                        ctx.fail(rule, "ScopedBitRead::" + it["name"], "accessor takes `%s` instead of `&self`" % recv, tpath)
+        if ts == "Reader" and tpath.startswith("asn1rs::"):
+            for it in t["items"]:
+                if it["name"].startswith("read") and it.get("inputs"):
+                    n += 1
+                    recv = it["inputs"][0]
+                    if recv.startswith("&mut"):
+                        ctx.ok(rule, "Reader::" + it["name"], {"receiver": recv}, nontrivial=False)
+                    else:
+                        ctx.fail(rule, "Reader::" + it["name"], "read method takes `%s` instead of `&mut self`" % recv, tpath)
+    try:
+        b = P.one("asn1rs", "UperReader::<B>::bits_remaining")
+        recv = b.raw.get("inputs", ["?"])[0]
+        n += 1
+        if recv.startswith("&") and not recv.startswith("&mut"):
+            ctx.ok(rule, "UperReader::bits_remaining", {"receiver": recv, "function": b.path})
+        else:
+            ctx.fail(rule, "UperReader::bits_remaining", "accessor takes `%s` instead of `&self`" % recv, "%s:%d" % (b.file, b.line))
+    except KeyError as e:
+        ctx.fail(rule, "anchor-lost:UperReader::bits_remaining", str(e))
+    ctx.floor(rule, n, "C04.R4.signatures")
+
+
+# ---------------------------------------------------------------------------------------------- R5
+def dropped_results(body):
+    """calls returning Result whose destination is never read"""
+    used = set()
+
+    def note(op):
+        if isinstance(op, dict) and op.get("k") in ("copy", "move"):
+            used.add(op["pl"]["l"])
+            for p in op["pl"]["p"]:
+                if p["k"] == "index":
+                    used.add(p["l"])
+
+    for bb, j, s in body.all_statements():
+        if s["k"] == "assign":
+            rv = s["rv"]
+            for k in ("op", "l", "r", "a"):
+                note(rv.get(k))
+            if "pl" in rv:
+                used.add(rv["pl"]["l"])
+            for o in rv.get("ops", []):
+                note(o)
+    for i in body.reachable:
+        t = body.blocks[i]["term"]
+        if not t:
+            continue
+        if t["k"] == "call":
+            for a in t["args"]:
+                note(a)
+            note(t["func"])
+        elif t["k"] == "switch":
+            note(t["op"])
+        elif t["k"] == "assert":
+            note(t["cond"])
+    out = []
+    for cs in body.calls():
+        dty = cs.term.get("dty", "")
+        if dty.startswith("std::result::Result<") and not cs.dest["p"] and cs.dest["l"] != 0:
+            if cs.dest["l"] not in used:
+                out.append(cs)
+    return out
+
+
+def r5(ctx, T):
+    rule = "C04.R5"
+    ctx.rule(rule, "dropped decode error census: no Result returned by a call in the decoder call graph is discarded "
+                   "(`let _ = call();` without `?`) except the reviewed sites of tables/discharged_sites.json")
+    table = load_discharged().get("C04.R5", {})
+    n = 0
+    for b in T.reach.values():
+        if b.crate != "asn1rs" or "::promoted[" in b.path or is_todo_body(b):
+            continue
+        n += 1
+        seen = {}
+        for cs in dropped_results(b):
+            base = "%s#result-dropped:%s" % (b.path, X.short(cs.callee))
+            k = seen[base] = seen.get(base, -1) + 1
+            key = "%s#%d" % (base, k)
+            detail = {"function": b.path, "call": X.short(cs.callee), "location": cs.loc()}
+            if key in table:
+                detail["reviewed"] = table[key]
+                ctx.ok(rule, key, detail)
+            else:
+                ctx.fail(rule, key, "the Result of %s is discarded: a decoding error at this point is lost" % X.short(cs.callee),
+                         cs.loc(), detail)
+    ctx.ok(rule, "census", {"bodies_scanned": n}, nontrivial=False)
+
+
+# ---------------------------------------------------------------------------------------------- R6
+def r6(ctx):
+    from .. import facts as F
+    rule = "C04.R6"
+    ctx.rule(rule, "documented-panic precondition: every call of BitVec::from_vec_with_trailing_bit_len in the decoders is "
+                   "dominated by a comparison of the vector's length with 8")
+    P = ctx.program()
+    n = 0
+    for b in P.lib_bodies("asn1rs"):
+        if "::promoted[" in b.path or b.path.endswith("from_vec_with_trailing_bit_len"):
+            continue
+        for cs in b.calls():
+            if cs.fn and cs.fn["def"].endswith("BitVec::from_vec_with_trailing_bit_len"):
+                if b.file.endswith("bitstring.rs") and "tests" in b.path:
+                    continue
+                n += 1
+                O = X.Origins(b, P)
+                good = None
+                for c in F.comparisons(b, O):
+                    if c.switch_bb is None or not b.dominates(c.switch_bb, cs.bb) or c.switch_bb == cs.bb:
+                        continue
+                    if "len(" in c.lhs and c.rhs == "" and c.kind == "b" and c.boundary == 8:
+                        good = c
+                detail = {"function": b.path, "call": cs.loc(), "guard": good.raw if good else None}
+                key = "%s#from_vec_with_trailing_bit_len" % b.path
+                if good:
+                    ctx.ok(rule, key, detail)
+                else:
+                    ctx.fail(rule, key, "BitVec::from_vec_with_trailing_bit_len (panics below 8 octets) is called on wire data "
+                                        "without a dominating `len() < 8` test", cs.loc(), detail)
+    ctx.floor(rule, n, "C04.R6.callers")
+
+
 def run(ctx):
-    r1(ctx)
+    T = r1(ctx)
+    r2(ctx)
+    r3(ctx)
+    r4(ctx)
+    r5(ctx, T)
+    r6(ctx)
